@@ -240,6 +240,27 @@ var scenarios = []*scenario{
   (channel-pop d)
   n)`,
 		check: all(expectVal("2"), noOverlap, mutexFree), canon: rawVal},
+	// the lock belongs to the routine that took it, not to the code or the scope: routines STARTED inside a
+	// with-mutex-lock body, and a closure MADE there and called from routines later, must still exclude each other
+	{name: "b5-routines-started-under-the-lock", group: "b", yield: true, quick: 2, thorough: 3,
+		src: `(let ((n 0) (d (make-channel 2)))
+  (with-mutex-lock the-mutex
+    (run (progn (with-mutex-lock the-mutex (tr 'enter-1) (let ((v n)) (tr 'mid-1) (setq n (+ v 1))) (tr 'leave-1)) (channel-push d t)))
+    (run (progn (with-mutex-lock the-mutex (tr 'enter-2) (let ((v n)) (tr 'mid-2) (setq n (+ v 1))) (tr 'leave-2)) (channel-push d t)))
+    (tr 'enter-0) (let ((v n)) (tr 'mid-0) (setq n (+ v 1))) (tr 'leave-0))
+  (channel-pop d) (channel-pop d)
+  n)`,
+		check: all(expectVal("3"), noOverlap, mutexFree), canon: rawVal},
+	{name: "b6-closure-made-under-the-lock", group: "b", yield: true, quick: 2, thorough: 3,
+		src: `(let ((n 0) (d (make-channel 2)) (bump nil))
+  (with-mutex-lock the-mutex
+    (setq bump (lambda (en mi le) (with-mutex-lock the-mutex (tr en) (let ((v n)) (tr mi) (setq n (+ v 1))) (tr le)))))
+  (run (progn (funcall bump 'enter-1 'mid-1 'leave-1) (channel-push d t)))
+  (run (progn (funcall bump 'enter-2 'mid-2 'leave-2) (channel-push d t)))
+  (funcall bump 'enter-0 'mid-0 'leave-0)
+  (channel-pop d) (channel-pop d)
+  n)`,
+		check: all(expectVal("3"), noOverlap, mutexFree), canon: rawVal},
 	{name: "a6-two-producers-consumer-thread", group: "a", raceQuick0: true, quick: 1, thorough: 1,
 		src: `(let ((c (make-channel 1)) (r (make-channel 4)) (out nil))
   (run (progn (channel-push c 'a1) (channel-push c 'a2)))
